@@ -54,7 +54,7 @@ def sim_case(
         )
         return case
     case["table"] = draw(tables.table_spec(table_nmax, with_library, families))
-    case["container"] = draw(st.sampled_from(["dict", "dataframe"]))
+    case["container"] = draw(st.sampled_from(["dict", "dataframe", "dataframe-offset-index"]))
     # one table in eight is handed over with its rows from high to low pressure (the wrapper's interpolators sort)
     case["rows"] = "descending" if draw(st.integers(0, 7)) == 0 else "ascending"
     case["pair"] = draw(tables.pressure_pair())
@@ -167,7 +167,9 @@ def run(case, simulate=True) -> Run:
         if sched is None:
             lib("SinglePhaseReservoir.simulate", res.simulate, time)
         else:
-            lib("SinglePhaseReservoir.simulate(schedule)", res.simulate, time, sched.copy())
+            # the schedule is handed over as an array or (one case in four, by the case hash) as a plain list
+            as_list = case.get("schedule", {}).get("kind") in ("stepdown", "arbitrary") and len(case["schedule"].get("levels", [])) % 4 == 3
+            lib("SinglePhaseReservoir.simulate(schedule)", res.simulate, time, sched.tolist() if as_list else sched.copy())
     m_i = float(fluid.m_i)
     pf_arr = np.full(len(time), p_f) if sched is None else sched
     m_f = np.asarray(fluid.m_scaled_func(pf_arr), float)
